@@ -7,6 +7,7 @@ import P2PVerif.Driver.Addr
 import P2PVerif.Driver.Frag
 import P2PVerif.Driver.Ke
 import P2PVerif.Driver.Hub
+import P2PVerif.Driver.Stack
 open P2PVerif.Driver
 
 def streams : List (String × Stream) := [
@@ -17,7 +18,8 @@ def streams : List (String × Stream) := [
   ("addr", addrStream),
   ("frag", fragStream),
   ("ke", keStream),
-  ("hub", hubStream)
+  ("hub", hubStream),
+  ("stack", stackStream)
 ]
 
 def main (args : List String) : IO UInt32 := do
